@@ -17,7 +17,8 @@ RULE = ("header suites: every code point of the tier's set in each of the positi
         "compression) sent through a real in-process server connection, file-likes with short reads included; "
         "client_request_framing: every ordered pair of body kinds (create with A, middleware update_body(B)) plus random "
         "ClientSession requests (method, HTTP/1.0|1.1, chunked, compress, 0-2 body replacements) over an in-memory "
-        "connector.  Non-trivial = the message was accepted and "
+        "connector, body sources growing / shrinking before the send; compressed_writer: StreamWriter op sequences with "
+        "enable_compression in all combinations headers buffered/sent x chunked/plain.  Non-trivial = the message was accepted and "
         "bytes were emitted; distinct by hash of (input, emitted bytes).")
 TRUSTED = [
     "translator/gen_writer.py (regex class -> N->bool; ast shape checks of _safe_header, _py_serialize_headers, _set_status)",
@@ -296,6 +297,8 @@ def impl_writer(loop, ops):
                 w.set_eof()
             elif k == "C":
                 w.enable_chunking()
+            elif k == "Z":
+                w.enable_compression(op[1])
             elif k == "L":
                 w.length = op[1]
         return bytes(tr.buf), (w.chunked, w._headers_written, w._eof, w.length)
@@ -935,9 +938,14 @@ class PsServer:
             if c.get("compress"):
                 resp.enable_compression()
             await resp.prepare(request)
-            for ch in chunks:
-                await resp.write(ch)
-            await resp.write_eof()
+            if c.get("eof") and chunks:            # the last piece goes through write_eof(data)
+                for ch in chunks[:-1]:
+                    await resp.write(ch)
+                await resp.write_eof(chunks[-1])
+            else:
+                for ch in chunks:
+                    await resp.write(ch)
+                await resp.write_eof()
             return resp
         if r == "file":
             data = ps_bytes(c["d"])
@@ -1110,7 +1118,9 @@ def ps_gen_server_case(rng):
     elif r < 0.75:
         resp = {"r": "stream", "status": rng.choice([200, 200, 206, 204, 304]),
                 "writes": [ps_dspec(rng, rng.random() < 0.2) for _ in range(rng.randint(0, 4))],
-                "mode": rng.choice(["auto", "chunked", "length"]), "compress": rng.random() < 0.15}
+                "mode": rng.choice(["auto", "chunked", "length"]), "compress": rng.random() < 0.3, "eof": rng.random() < 0.5}
+        if resp["compress"] and not any(k == "Accept-Encoding" for k, _ in headers):
+            headers.append(("Accept-Encoding", rng.choice(["gzip", "deflate"])))
     else:
         d = ps_dspec(rng)
         n = d["n"]
@@ -1122,6 +1132,22 @@ def ps_gen_server_case(rng):
             headers.append(("If-Modified-Since", "Fri, 01 Jan 2100 00:00:00 GMT"))
         resp = {"r": "file", "status": 200, "d": d, "chunk_size": rng.choice([1, 7, 4096, 2 ** 16, 2 ** 18] if n <= 1000 else [4096, 2 ** 16, 2 ** 18])}
     return {"suite": "payload_sizes", "part": "server", "req": {"method": method, "version": version, "headers": headers}, "resp": resp}
+
+
+def ps_fixed_server_cases():
+    """StreamResponse + enable_compression + write_eof(data): the data is the first thing the compressor sees, or a
+    large incompressible final block (compress() itself emits output), headers already on the wire."""
+    out = []
+    for enc in ("gzip", "deflate"):
+        for mode in ("auto", "chunked"):
+            for version in ("1.1", "1.0"):
+                if version == "1.0" and mode == "chunked":
+                    continue
+                for writes in ([{"hex": "78"}], [{"seed": 5, "n": 70000}], [{"seed": 6, "n": 3}, {"seed": 7, "n": 40000}], []):
+                    out.append({"suite": "payload_sizes", "part": "server",
+                                "req": {"method": "GET", "version": version, "headers": [["Accept-Encoding", enc]]},
+                                "resp": {"r": "stream", "status": 200, "writes": writes, "mode": mode, "compress": True, "eof": True}})
+    return out
 
 
 def ps_run_server_case(srv, case):
@@ -1234,7 +1260,7 @@ def suite_payload_sizes(ctx):
         ran = 0
         last = None
         pay_cases = [c for c in corpus if c["part"] == "payload"] + [ps_gen_payload_case(rng) for _ in range(n_pay)]
-        srv_cases = [c for c in corpus if c["part"] == "server"] + [ps_gen_server_case(rng) for _ in range(n_srv)]
+        srv_cases = [c for c in corpus if c["part"] == "server"] + ps_fixed_server_cases() + [ps_gen_server_case(rng) for _ in range(n_srv)]
         for case in pay_cases:
             try:
                 obs, bad = ps_eval_payload(loop, tmp, case["spec"], case["wl"])
@@ -1316,6 +1342,26 @@ def cr_gen_case(rng):
             "mw": rng.choice(["session", "request"])}
 
 
+def cr_gen_grow_case(rng):
+    """The final body is a BytesIO / real file that grows or shrinks after the request object was built
+    (before_connect hook of the in-memory connector) and before the body is written."""
+    n = rng.choice([0, 1, 5, 100, 1000, 2 ** 16, 2 ** 16 + 1])
+    k = rng.choice(["bytesio", "file", "file"])
+    if k == "bytesio":
+        src = {"k": "bytesio", "d": {"seed": rng.randrange(2 ** 32), "n": n}, "pre": rng.choice([0, 0, min(1, n), n // 2])}
+    else:
+        src = {"k": "file", "mode": rng.choice(["buffered", "raw", "short_raw", "short_buf"]), "cls": "auto",
+               "d": {"seed": rng.randrange(2 ** 32), "n": n}, "pre": rng.choice([0, 0, min(1, n), n // 2])}
+        if src["mode"].startswith("short"):
+            src["short"] = ps_short(rng, n)
+    delta = rng.choice([1, 2, 7, 1000, 2 ** 16 + 3]) * (1 if rng.random() < 0.7 else -1)
+    upd = rng.random() < 0.3
+    return {"suite": "client_request_framing", "method": rng.choice(["POST", "PUT", "GET"]), "version": rng.choice(["1.1", "1.1", "1.0"]),
+            "a": cr_gen_body(rng) if upd else src, "chunked": None if rng.random() < 0.85 else True, "compress": False,
+            "updates": [src] if upd else [], "mw": rng.choice(["session", "request"]),
+            "grow": {"delta": delta, "seed": rng.randrange(2 ** 32)}}
+
+
 def cr_pairs():
     """Every ordered pair (initial body kind, replacement kind), explicit chunked=True included."""
     import random
@@ -1360,6 +1406,11 @@ class CrBed:
                 self.tr = tr
                 self.buf += data
 
+            async def before_connect(self, req):
+                # "while the connection is being established": the request object exists (its Content-Length was
+                # computed), nothing has been written yet
+                bed.mutate_source()
+
         def factory(req):
             bed.origin = Origin()
             return bed.origin
@@ -1372,8 +1423,43 @@ class CrBed:
         loop.run_until_complete(go())
         self.updates = []
 
+    def mutate_source(self):
+        """Grow (delta > 0: append bytes) or shrink (delta < 0: truncate) the source of the request's final body."""
+        import io
+        import os
+        g = self.grow
+        src = self.source
+        self.grow = None
+        if not g or src is None:
+            return
+        f = src
+        extra = ps_bytes({"seed": g["seed"], "n": abs(g["delta"])})
+        if isinstance(f, io.BytesIO):
+            pos = f.tell()
+            if g["delta"] > 0:
+                f.seek(0, 2)
+                f.write(extra)
+                f.seek(pos)
+            else:
+                f.truncate(max(pos, len(f.getbuffer()) + g["delta"]))
+                f.seek(pos)
+            return
+        path = getattr(f, "name", None) or getattr(getattr(f, "_f", None), "name", None)
+        if not isinstance(path, str):
+            return
+        if g["delta"] > 0:
+            with open(path, "ab") as h:
+                h.write(extra)
+        else:
+            os.truncate(path, max(f.tell(), os.path.getsize(path) + g["delta"]))
+
     def body_value(self, spec):
         """(value for data= / update_body, expected bytes or None)"""
+        v, exp = self._body_value(spec)
+        self.source = v if spec is not None and spec["k"] in ("bytesio", "file") and spec.get("mode") != "membuf" else None
+        return v, exp
+
+    def _body_value(self, spec):
         if spec is None:
             return None, b""
         if spec["k"] == "form":
@@ -1397,6 +1483,8 @@ class CrBed:
         sess = self.sessions[case["version"]]
 
         async def go():
+            self.grow = case.get("grow")
+            self.source = None
             v, self.expected = self.body_value(case["a"])
             kw = {}
             self.req = None
@@ -1437,13 +1525,14 @@ class CrBed:
                     stable = 0
                 last = n
             outcome = "sent"
-            if not task.done():
+            self.gave_up = self.origin is not None and self.origin.tr is not None and self.origin.tr.closed
+            if not task.done() and not self.gave_up:
                 self.origin.tr.protocol.data_received(b"HTTP/1.1 200 OK\r\nContent-Length: 0\r\nConnection: close\r\n\r\n")
             try:
                 resp = await task
                 await resp.read()
                 resp.release()
-            except (ValueError, TypeError, RuntimeError, LookupError) as e:
+            except (ValueError, TypeError, RuntimeError, LookupError, OSError) as e:
                 outcome = "raised:" + type(e).__name__
             for _ in range(5):
                 await aio.sleep(0)
@@ -1523,9 +1612,25 @@ def sig_bare_last_chunk_after_get(case, params):
 SIGNATURES["bare_last_chunk_after_bodyless_get"] = sig_bare_last_chunk_after_get
 
 
+def sig_short_body_after_shrink(case, params):
+    """The body source (file / BytesIO) lost bytes between the construction of the request (Content-Length computed)
+    and the writing of the body: the client writes the bytes that are left, reports no error and keeps the
+    connection open, so fewer bytes than announced are on the wire and the peer waits / takes the next request's
+    first bytes as body."""
+    return case.get("suite") == "client_request_framing" and case.get("check") == "framing" and \
+        bool(case.get("grow")) and case["grow"]["delta"] < 0
+
+
+SIGNATURES["short_body_after_source_shrinks"] = sig_short_body_after_shrink
+
+
 def cr_eval(bed, case):
     raw, outcome = bed.run(case)
-    bad = cr_check(case, raw, outcome, bed.expected)
+    expected = None if case.get("grow") else bed.expected      # a source changed under the request: framing only
+    if case.get("grow") and case["grow"]["delta"] < 0 and (bed.gave_up or outcome != "sent"):
+        bad = []        # bytes that no longer exist cannot be sent: closing the connection / failing is the truthful way out
+    else:
+        bad = cr_check(case, raw, outcome, expected)
     head = raw.partition(b"\r\n\r\n")[0].lower()
     framing = "none" if not raw else ("chunked" if b"transfer-encoding" in head else ("length" if b"content-length" in head else "bare"))
     return (len(raw), outcome, framing), bad
@@ -1547,7 +1652,7 @@ def suite_client_request_framing(ctx):
         ran = 0
         case = None
         try:
-            for case in corpus + cr_pairs() + [cr_gen_case(rng) for _ in range(n)]:
+            for case in corpus + cr_pairs() + [cr_gen_case(rng) for _ in range(n)] + [cr_gen_grow_case(rng) for _ in range(n // 3)]:
                 try:
                     obs, bad = cr_eval(bed, case)
                 except Exception as e:  # noqa
@@ -1558,6 +1663,8 @@ def suite_client_request_framing(ctx):
                 ctx.count("cr-framing:" + obs[2])
                 ctx.count("cr-outcome:" + obs[1])
                 ctx.count("cr-updates:%d" % len(case["updates"]))
+                if case.get("grow"):
+                    ctx.count("cr-source:" + ("grows" if case["grow"]["delta"] > 0 else "shrinks"))
                 for check, what in bad:
                     ctx.violation(dict(case, check=check), what)
         finally:
@@ -1580,6 +1687,119 @@ def cr_replay(case):
     return ps_with_env(body)
 
 
+# ---- StreamWriter with compression (implementation-only oracle; the Coq writer model has no compression) ----
+
+def zw_data(d):
+    """dspec with optional "rep": compressible data (a short pattern repeated)."""
+    if d.get("rep"):
+        pat = ps_bytes({"seed": d["seed"], "n": 7})
+        return (pat * (d["n"] // 7 + 1))[:d["n"]]
+    return ps_bytes(d)
+
+
+def zw_dspec(rng):
+    n = rng.choice([0, 0, 1, 1, 2, 5, 100, 1000, 4096, 20000, 70000]) if rng.random() < 0.8 else rng.randint(0, 300)
+    return {"seed": rng.randrange(2 ** 32), "n": n, "rep": rng.random() < 0.35}
+
+
+def zw_gen_case(rng):
+    """[Z enc] [C]? H [S]? (W d | S)* E d  - all four combinations headers buffered/sent x chunked/plain,
+    terminator write_eof WITH or without data (set_eof never flushes a compressor, so it is not a well-formed end)."""
+    pre = [["Z", rng.choice(["deflate", "gzip"])]]
+    if rng.random() < 0.6:
+        pre.append(["C"])
+    rng.shuffle(pre)
+    ops = pre + [["H", rng.randrange(len(HEADS))]]
+    if rng.random() < 0.5:
+        ops.append(["S"])
+    for _ in range(rng.choice([0, 0, 0, 1, 1, 2, 4])):
+        ops.append(["W", zw_dspec(rng)] if rng.random() < 0.8 else ["S"])
+    e = zw_dspec(rng)
+    if rng.random() < 0.15:
+        e["n"] = 0
+    ops.append(["E", e])
+    return {"suite": "compressed_writer", "ops": ops}
+
+
+def zw_eval(loop, case):
+    """Run on the real StreamWriter; returns (observable, [failures])."""
+    import zlib
+    ops = case["ops"]
+    real = [tuple([o[0], zw_data(o[1])]) if o[0] in ("W", "E") else tuple(o) for o in ops]
+    out, st = impl_writer(loop, real)
+    enc = [o[1] for o in ops if o[0] == "Z"][0]
+    chunked = any(o[0] == "C" for o in ops)
+    head = head_bytes([o[1] for o in ops if o[0] == "H"][0])
+    written = b"".join(o[1] for o in real if o[0] in ("W", "E"))
+    obs = (len(out), chunked, enc)
+    if not out.startswith(head):
+        return obs, [("framing", "output does not start with the buffered head")]
+    body = out[len(head):]
+    if chunked:
+        r = dechunk_ref(body)
+        if r is None or r[1] != b"":
+            return obs, [("framing", f"chunked + {enc}: the body does not de-chunk (a chunk size does not match its data) / trailing bytes: {body[:60]!r}")]
+        body = r[0]
+    try:
+        d = zlib.decompressobj(16 + zlib.MAX_WBITS if enc == "gzip" else zlib.MAX_WBITS)
+        plain = d.decompress(body)
+        if not d.eof or d.unused_data:
+            return obs, [("content", f"{enc} stream is not complete / has {len(d.unused_data)} trailing bytes")]
+    except zlib.error as e:
+        return obs, [("content", f"{enc} body does not decompress: {e}")]
+    if plain != written:
+        return obs, [("content", f"decompressed body ({len(plain)} bytes) is not the concatenation of the written data ({len(written)} bytes)")]
+    return obs, []
+
+
+def suite_compressed_writer(ctx):
+    from harness.common.loop import VLoop
+    rng = ctx.rng
+    loop = VLoop()
+    asyncio.set_event_loop(loop)
+    loop.set_default_executor(_ps_inline_executor())
+    ran = 0
+    case = None
+    try:
+        fixed = []
+        for enc in ("deflate", "gzip"):          # the four combinations, eof data as the FIRST thing compressed
+            for chunked in (False, True):
+                for sent in (False, True):
+                    for e in ({"hex": "78"}, {"hex": ""}, {"seed": 3, "n": 70000}):
+                        fixed.append({"suite": "compressed_writer", "ops": [["Z", enc]] + ([["C"]] if chunked else []) + [["H", 0]] +
+                                      ([["S"]] if sent else []) + [["E", e]]})
+        for case in fixed + [zw_gen_case(rng) for _ in range(1500 if ctx.quick else 30000)]:
+            try:
+                obs, bad = zw_eval(loop, case)
+            except Exception as e:  # noqa
+                ctx.violation(dict(case, check="exception"), f"compressed writer case raised {e!r}")
+                continue
+            ran += 1
+            ctx.case(("zw", json.dumps(case, sort_keys=True), obs), nontrivial=obs[0] > 0)
+            ctx.count("zw:" + ("chunked" if obs[1] else "plain") + ":" + obs[2])
+            for check, what in bad:
+                ctx.violation(dict(case, check=check), what)
+        if case is not None:
+            ctx.sample(case)
+    finally:
+        asyncio.set_event_loop(None)
+        loop.close()
+    ctx.close_suite("compressed_writer", ran)
+
+
+def zw_replay(case):
+    from harness.common.loop import VLoop
+    loop = VLoop()
+    asyncio.set_event_loop(loop)
+    loop.set_default_executor(_ps_inline_executor())
+    try:
+        obs, bad = zw_eval(loop, case)
+    finally:
+        asyncio.set_event_loop(None)
+        loop.close()
+    return {"observed": list(obs), "failures": [list(b) for b in bad], "violates": bool(bad)}
+
+
 def run(ctx):
     ok, exe = build_model()
     ctx.oblige("model-runner-build", "correspondence", ok, "" if ok else exe)
@@ -1588,6 +1808,7 @@ def run(ctx):
     suite_serialize(ctx, exe)
     suite_response_glue(ctx, exe)
     suite_writer(ctx, exe)
+    suite_compressed_writer(ctx)
     suite_payload_sizes(ctx)
     suite_client_request_framing(ctx)
 
@@ -1597,6 +1818,8 @@ def replay(ctx, case):
         return ps_replay(case)
     if case.get("suite") == "client_request_framing":
         return cr_replay(case)
+    if case.get("suite") == "compressed_writer":
+        return zw_replay(case)
     ok, exe = build_model()
     if case.get("suite") == "serialize_headers":
         sl, hs = case["status_line"], [tuple(x) for x in case["headers"]]
